@@ -240,10 +240,11 @@ def run_check(pid, tier, seed):
         print("  kind: %s  cfg: %s" % (r["violation"]["kind"], json.dumps(r["cfg"], default=str)))
         print("  real build: %s" % json.dumps(case["real_result"], default=str)[:600])
         exit_code = 1
-    if getattr(H, "UNREPRODUCED_IS_BENIGN", False):
-        for r, out in mismatches:
-            print("NOTE: %s -- not observable on the real build (%s): not a violation" % (r["violation"]["kind"][:160], out.get("note", "")))
-        benign, mismatches = mismatches, []
+    benign = [(r, out) for r, out in mismatches
+              if getattr(H, "UNREPRODUCED_IS_BENIGN", False) or r["violation"]["case"].get("unobservable_ok")]
+    mismatches = [(r, out) for r, out in mismatches if not any(r is b for b, _ in benign)]
+    for r, out in benign:
+        print("NOTE: %s -- not observable on the real build (%s): not a violation" % (r["violation"]["kind"][:160], out.get("note", "")))
     for r, out in mismatches:
         print("ENGINE-MISMATCH: symbolic violation (%s) did not reproduce on the real build: cfg=%s case=%s real=%s" % (
             r["violation"]["kind"], json.dumps(r["cfg"], default=str), json.dumps(r["violation"]["case"], default=str)[:800], json.dumps(out, default=str)[:400]))
